@@ -82,14 +82,20 @@ namespace igris
             return ring_empty(&r);
         }
 
+        // Every slot of the storage holds an object at all times (the array
+        // builds them, and destroys all of them at the end): the object in the
+        // free slot is destroyed before a new one is constructed in its place,
+        // and pop() leaves a default-constructed object behind.
         void push(const T &obj)
         {
+            buffer[r.head].~T();
             new (buffer.data() + r.head) T(obj);
             ring_move_head_one(&r);
         }
 
         template <typename... Args> void emplace(Args &&... args)
         {
+            buffer[r.head].~T();
             new (buffer.data() + r.head) T(std::forward<Args>(args)...);
             ring_move_head_one(&r);
         }
@@ -106,6 +112,7 @@ namespace igris
         {
             int idx = r.tail;
             buffer[idx].~T();
+            new (buffer.data() + idx) T;
             ring_move_tail_one(&r);
         }
 
